@@ -785,7 +785,20 @@ class MatrixModel:
 
         if isinstance(f, MRef):
             raise ModelError(f"applyfunc({f.name}) has no model")
-        return self.wrap(Mat([[self.value(self.ex.apply(f, [self.wrap(x)], {})) for x in r] for r in v.rows]), subst=self._subst_of(o))
+        # entry by entry; an entry carries the substitutions recorded on the matrix, and what ``f`` records on the entries
+        # (``operator.methodcaller("xreplace", rules)``, ``lambda x: x.xreplace(rules)``: the definition of Matrix.xreplace)
+        # is recorded on the new matrix if it is the same for every entry
+        before = self._subst_of(o)
+        images = [[self.ex.apply(f, [self.wrap(x, subst=before)], {}) for x in r] for r in v.rows]
+        from .rules import MObj
+
+        recorded = [self._subst_of(y) if isinstance(y, MObj) and "__subst__" in y.attrs else before for r in images for y in r]
+        after = recorded[0] if recorded else before
+        if any(len(x) != len(after) or any(p[0] != q[0] or p[1] != q[1] for p, q in zip(x, after)) for x in recorded[1:]):
+            raise ModelError("applyfunc: the function substitutes different symbols in different entries of the matrix")
+        if len(after) < len(before) or any(p[0] != q[0] or p[1] is not q[1] and p[1] != q[1] for p, q in zip(after, before)):
+            raise ModelError("applyfunc: the entries lose substitutions that were recorded on the matrix")
+        return self.wrap(Mat([[self.value(y) for y in r] for r in images]), subst=after)
 
     # ------------------------------------------------------------------ items
     def _index(self, idx):
